@@ -573,7 +573,7 @@ Section Whole.
     PLF rest (fold_fields base (sb_fields b) g) None out.
   Proof.
     unfold wf_block. intros W P. apply andb_true_iff in W as [W _]. apply andb_true_iff in W as [W _].
-    apply andb_true_iff in W as [W Wf]. apply andb_true_iff in W as [Wi Wc].
+    apply andb_true_iff in W as [W Wf]. apply andb_true_iff in W as [W Wc]. apply andb_true_iff in W as [_ Wi].
     unfold wf_indent in Wi. apply andb_true_iff in Wi as [Wi _].
     rewrite raw_of_indented. unfold block_lines. rewrite raw_lines_app, <- app_assoc.
     rewrite (comments_step (sb_indent b) Wi (sb_comments b) _ g out P Wc).
@@ -582,24 +582,72 @@ Section Whole.
 
   Definition read_block (b : sblock) : lentry := default_num fx (spec_lentry base dirsel b).
 
-  Lemma lf_parse lf : forall out, wf_linkfile lf = true ->
-    PLF (map (fun l => l ++ [10]) (lf_lines lf)) (gstart fx dirsel None) None out =
+  Lemma emit_gstart out : emit base (gstart fx dirsel None) out = out.
+  Proof. reflexivity. Qed.
+
+  (* blank lines and comment lines between blocks: nothing happens *)
+  Lemma noise_step ns : forall rest out, wf_noise ns = true ->
+    PLF (map (fun l => l ++ [10]) (noise_lines ns) ++ rest) (gstart fx dirsel None) None out =
+    PLF rest (gstart fx dirsel None) None out.
+  Proof.
+    induction ns as [|o r IH]; intros rest out W; [reflexivity|].
+    cbn [wf_noise forallb] in W. apply andb_true_iff in W as [W1 W2].
+    cbn [noise_lines map app]. fold (noise_lines r). destruct o as [c|].
+    - apply andb_true_iff in W1 as [_ W1].
+      change ((35 :: c) ++ [10]) with ([] ++ (35 :: c) ++ [10]).
+      rewrite (line_step fx base dirsel [] eq_refl (35 :: c) _ _ out (trim_comment c W1)).
+      rewrite do_line_comment. cbn [g_path gstart]. now apply IH.
+    - change ([] ++ [10]) with ([] ++ [] ++ [10]) at 1.
+      rewrite (line_step fx base dirsel [] eq_refl [] _ _ out eq_refl). cbn [do_line]. rewrite emit_gstart.
+      now apply IH.
+  Qed.
+
+  Lemma full_step b rest out : wf_block b = true ->
+    PLF (map (fun l => l ++ [10]) (full_lines b) ++ rest) (gstart fx dirsel None) None out =
+    PLF rest (fold_fields base (sb_fields b) (gstart fx dirsel None)) None out.
+  Proof.
+    intros W. unfold full_lines. rewrite map_app, <- app_assoc. rewrite noise_step.
+    - now apply block_step.
+    - unfold wf_block in W. apply andb_true_iff in W as [W _]. apply andb_true_iff in W as [W _].
+      apply andb_true_iff in W as [W _]. apply andb_true_iff in W as [W _]. now apply andb_true_iff in W as [W _].
+  Qed.
+
+  Lemma trailer_end tr out : wf_noise tr = true ->
+    PLF (map (fun l => l ++ [10]) (trailer tr)) (gstart fx dirsel None) None out = Ok (rev out).
+  Proof.
+    intros W. destruct tr as [|o r]; [reflexivity|]. unfold trailer.
+    change (map (fun l => l ++ [10]) ([] :: noise_lines (o :: r)))
+      with (([] ++ [] ++ [10]) :: map (fun l => l ++ [10]) (noise_lines (o :: r))).
+    rewrite (line_step fx base dirsel [] eq_refl [] _ _ out eq_refl). cbn [do_line]. rewrite emit_gstart.
+    rewrite <- (app_nil_r (map (fun l => l ++ [10]) (noise_lines (o :: r)))). rewrite noise_step by exact W.
+    reflexivity.
+  Qed.
+
+  Lemma lf_parse lf tr : forall out, wf_linkfile lf = true -> wf_noise tr = true ->
+    PLF (map (fun l => l ++ [10]) (lf_lines lf ++ trailer tr)) (gstart fx dirsel None) None out =
     Ok (rev out ++ map read_block lf).
   Proof.
-    induction lf as [|b r IH]; intros out W.
-    - cbn. now rewrite app_nil_r.
+    induction lf as [|b r IH]; intros out W Wt.
+    - cbn [lf_lines app map]. rewrite trailer_end by exact Wt. now rewrite app_nil_r.
     - cbn [wf_linkfile forallb] in W. apply andb_true_iff in W as [Wb Wr].
       assert (E : emit base (fold_fields base (sb_fields b) (gstart fx dirsel None)) out = read_block b :: out).
       { unfold emit. now rewrite (gfinish_block fx base dirsel b Wb). }
       destruct r as [|b2 r'].
-      + cbn [lf_lines]. rewrite <- (app_nil_r (map (fun l => l ++ [10]) (indented_lines b))).
-        rewrite block_step by (trivial). cbn [plf_loop]. rewrite E. cbn [rev map]. reflexivity.
-      + change (lf_lines (b :: b2 :: r')) with (indented_lines b ++ [] :: lf_lines (b2 :: r')).
-        rewrite map_app. rewrite block_step by trivial.
-        change (map (fun l => l ++ [10]) ([] :: lf_lines (b2 :: r')))
-          with (([] ++ [] ++ [10]) :: map (fun l => l ++ [10]) (lf_lines (b2 :: r'))).
+      + cbn [lf_lines]. rewrite map_app. rewrite full_step by exact Wb.
+        destruct tr as [|o t].
+        * cbn [trailer map plf_loop]. rewrite E. cbn [rev map]. reflexivity.
+        * unfold trailer.
+          change (map (fun l => l ++ [10]) ([] :: noise_lines (o :: t)))
+            with (([] ++ [] ++ [10]) :: map (fun l => l ++ [10]) (noise_lines (o :: t))).
+          rewrite (line_step fx base dirsel [] eq_refl [] _ _ out eq_refl). cbn [do_line]. rewrite E.
+          rewrite <- (app_nil_r (map (fun l => l ++ [10]) (noise_lines (o :: t)))). rewrite noise_step by exact Wt.
+          cbn [plf_loop]. rewrite emit_gstart. cbn [rev map]. reflexivity.
+      + change (lf_lines (b :: b2 :: r')) with (full_lines b ++ [] :: lf_lines (b2 :: r')).
+        rewrite <- app_assoc, map_app. rewrite full_step by exact Wb.
+        change (map (fun l => l ++ [10]) (([] :: lf_lines (b2 :: r')) ++ trailer tr))
+          with (([] ++ [] ++ [10]) :: map (fun l => l ++ [10]) (lf_lines (b2 :: r') ++ trailer tr)).
         rewrite (line_step fx base dirsel [] eq_refl [] _ _ out eq_refl). cbn [do_line]. rewrite E.
-        rewrite (IH (read_block b :: out) Wr). cbn [rev map]. now rewrite <- app_assoc.
+        rewrite (IH (read_block b :: out) Wr Wt). cbn [rev map]. now rewrite <- app_assoc.
   Qed.
 End Whole.
 
@@ -651,10 +699,18 @@ Proof.
       rewrite forallb_app', M. cbn [forallb]. rewrite Wf. reflexivity.
 Qed.
 
-Lemma block_lines_no_eol b : wf_block b = true -> forallb no_eol (indented_lines b) = true.
+Lemma noise_lines_no_eol ns : wf_noise ns = true -> forallb no_eol (noise_lines ns) = true.
+Proof.
+  induction ns as [|o r IH]; [reflexivity|]. cbn [wf_noise forallb]. intros W. apply andb_true_iff in W as [W1 W2].
+  cbn [noise_lines map forallb]. fold (noise_lines r). rewrite (IH W2), andb_true_r.
+  destruct o as [c|]; [|reflexivity]. apply andb_true_iff in W1 as [W1 _].
+  change (35 :: c) with ([35] ++ c). now rewrite no_eol_app, W1.
+Qed.
+
+Lemma block_lines_no_eol b : wf_block b = true -> forallb no_eol (full_lines b) = true.
 Proof.
   unfold wf_block. intros W. apply andb_true_iff in W as [W _]. apply andb_true_iff in W as [W _].
-  apply andb_true_iff in W as [W Wf]. apply andb_true_iff in W as [Wi Wc].
+  apply andb_true_iff in W as [W Wf]. apply andb_true_iff in W as [W Wc]. apply andb_true_iff in W as [Wn Wi].
   unfold wf_indent in Wi. apply andb_true_iff in Wi as [_ Wi].
   assert (B : forallb no_eol (block_lines b) = true).
   { unfold block_lines. rewrite forallb_app'. apply andb_true_iff. split.
@@ -664,6 +720,7 @@ Proof.
     - clear Wc. induction (sb_fields b) as [|f r IH]; [reflexivity|].
       cbn [forallb] in Wf. apply andb_true_iff in Wf as [H1 H2].
       cbn [map concat]. rewrite forallb_app', (field_lines_no_eol f H1), (IH H2). reflexivity. }
+  unfold full_lines. rewrite forallb_app', (noise_lines_no_eol _ Wn). cbn [andb].
   unfold indented_lines. induction (block_lines b) as [|l r IH]; [reflexivity|].
   cbn [forallb] in B. apply andb_true_iff in B as [B1 B2].
   cbn [map forallb]. rewrite no_eol_app, Wi, B1, (IH B2). reflexivity.
@@ -674,16 +731,22 @@ Proof.
   induction lf as [|b r IH]; [reflexivity|]. intros W. cbn [wf_linkfile forallb] in W.
   apply andb_true_iff in W as [Wb Wr]. destruct r as [|b2 r'].
   - cbn [lf_lines]. now apply block_lines_no_eol.
-  - change (lf_lines (b :: b2 :: r')) with (indented_lines b ++ [] :: lf_lines (b2 :: r')).
+  - change (lf_lines (b :: b2 :: r')) with (full_lines b ++ [] :: lf_lines (b2 :: r')).
     rewrite forallb_app'. cbn [forallb]. rewrite (block_lines_no_eol b Wb). now rewrite (IH Wr).
 Qed.
 
-Theorem parse_wf_blocks fx base dirsel lf :
-  wf_linkfile lf = true ->
-  process_link_file fx base dirsel None (render_linkfile lf) =
+Lemma trailer_no_eol tr : wf_noise tr = true -> forallb no_eol (trailer tr) = true.
+Proof. intros W. destruct tr; [reflexivity|]. unfold trailer. cbn [forallb]. now apply noise_lines_no_eol. Qed.
+
+Theorem parse_wf_blocks_trailing fx base dirsel lf tr :
+  wf_linkfile lf = true -> wf_noise tr = true ->
+  process_link_file fx base dirsel None (render_linkfile_trailing lf tr) =
   Ok (map (fun b => default_num fx (spec_lentry base dirsel b)) lf).
 Proof.
-  intros W. pose proof (lf_lines_no_eol lf W) as NE. unfold process_link_file, render_linkfile.
+  intros W Wt.
+  assert (NE : forallb no_eol (lf_lines lf ++ trailer tr) = true)
+    by (rewrite forallb_app', (lf_lines_no_eol lf W), (trailer_no_eol tr Wt); reflexivity).
+  unfold process_link_file, render_linkfile_trailing.
   rewrite universal_newlines_id.
   2:{ rewrite mem_N_concat_lines. apply not_true_is_false. intro E. apply existsb_exists in E as (l & I & El).
       rewrite forallb_forall in NE. specialize (NE l I). unfold no_eol in NE.
@@ -691,5 +754,14 @@ Proof.
   rewrite lines_keepends_lines.
   2:{ apply forallb_forall. intros l I. rewrite forallb_forall in NE. specialize (NE l I). unfold no_eol in NE.
       now apply andb_true_iff in NE as [N10 _]. }
-  rewrite (lf_parse fx base dirsel lf [] W). reflexivity.
+  rewrite (lf_parse fx base dirsel lf tr [] W Wt). reflexivity.
+Qed.
+
+Theorem parse_wf_blocks fx base dirsel lf :
+  wf_linkfile lf = true ->
+  process_link_file fx base dirsel None (render_linkfile lf) =
+  Ok (map (fun b => default_num fx (spec_lentry base dirsel b)) lf).
+Proof.
+  intros W. pose proof (parse_wf_blocks_trailing fx base dirsel lf [] W eq_refl) as H.
+  unfold render_linkfile_trailing in H. cbn [trailer] in H. rewrite app_nil_r in H. exact H.
 Qed.
